@@ -12,6 +12,23 @@ The model follows the code, not the AIP (e.g. the macro assigns to the object it
 request *instance* supplied by the caller is modified in place).  Since the `fix:` commit 239cd3d the
 type test reads `field.repeated or field.type != str`, so a `repeated string` is reported as
 "not of type string".
+
+Represented: the whole of `enforce_valid_method_settings` (every branch, in the code's order, with the
+dict-overwrite semantics of `all_errors`); `all_method_settings` as far as the templates read it
+(`settingsFor`: the dict comprehension keyed by selector; `importsUuid`: the `{% if … |list %}` gate of
+`import uuid` in client.py.j2 / async_client.py.j2); the macro (both branches, the loop, the lookup by
+`method.meta.address.proto`); the statement order of the sync and asyncio method bodies; the four call
+paths (sync gRPC, asyncio gRPC, REST = sync client, rest_asyncio = asyncio client); the request coercion
+as far as object identity goes (instance used as is / dict / flattened kwargs / no request → new
+object); the pager's follow-up requests (`pageRequests`: same request, new page_token).
+
+NOT modelled (reached through T3 only, or outside the quantifier): Jinja's evaluation of the templates;
+proto-plus/protobuf (presence, `in`, truthiness of `request.f` are parameters of `needs`); the REST
+transcoding of the populated request (C04); retries inside `rpc` (the id is part of the request object,
+so a retry re-sends it — by construction of `wrap_method`, not modelled); request messages from another
+proto package (the `request = T(**request)` branch), string members of a real oneof, reserved-word field
+names; `uuid.uuid4` itself (a parameter `gen`, assumed injective and non-empty); the emitted unit tests
+(run by the check, not modelled); `long_running` of MethodSettings (copied through, not read here).
 -/
 namespace GapicModel.Model.AutoPop
 
@@ -130,9 +147,10 @@ def popStep (gen : Nat → String) (inp : List Field) (st : Req × Nat) (f : Str
 def populate (gen : Nat → String) (inp : List Field) (fields : List String) (st : Req × Nat) : Req × Nat :=
   fields.foldl (popStep gen inp) st
 
-/-- the three call paths of an emitted library -/
+/-- the call paths of an emitted library (`restAsyncio`: the experimental `rest_async_io_enabled` transport,
+reached through the asyncio client) -/
 inductive Path where
-  | sync | asyncio | rest
+  | sync | asyncio | rest | restAsyncio
 deriving Repr, DecidableEq
 
 /-- how the caller hands over the request -/
@@ -140,6 +158,7 @@ inductive Mode where
   | inst      -- a request message instance: `isinstance(request, T)` → used AS IS (no copy)
   | dict      -- a dict: `T(request)` builds a new object
   | kwargs    -- flattened keyword arguments: `T(None)` + assignments build a new object
+  | none      -- neither a request nor keyword arguments: `T(None)`, an empty new object
 deriving Repr, DecidableEq
 
 /-- the statements of a client method body that follow the docstring -/
@@ -152,10 +171,14 @@ statement sequence; `transport=rest` has no client of its own: `client.py.j2` is
 def syncBody : List Stmt :=
   [.coerce, .applyKwargs, .wrapRpc, .metadata, .apiVersionHeader, .populate, .validateUniverse, .send]
 
+def asyncBody : List Stmt :=
+  [.coerce, .applyKwargs, .wrapRpc, .metadata, .apiVersionHeader, .populate, .validateUniverse, .send]
+
 def pipeline : Path → List Stmt
   | .sync => syncBody
-  | .asyncio => [.coerce, .applyKwargs, .wrapRpc, .metadata, .apiVersionHeader, .populate, .validateUniverse, .send]
+  | .asyncio => asyncBody
   | .rest => syncBody
+  | .restAsyncio => asyncBody
 
 structure CallSt where
   req : Req
@@ -174,11 +197,36 @@ def fieldsOf (s : Option Settings) : List String :=
   | none => []
   | some s => s.fields
 
+/-- the object the method body works on: what the caller handed over, or an empty one (`mode = none`) -/
+def startObj (mode : Mode) (obj : Req) : Req := if mode = .none then [] else obj
+
 /-- one call: (request handed to the transport, the caller's object afterwards, uuid counter) -/
 def call (gen : Nat → String) (m : Method) (s : Option Settings) (path : Path) (mode : Mode)
     (obj : Req) (ctr : Nat) : Option Req × Req × Nat :=
-  let st := (pipeline path).foldl (exec gen m.input (fieldsOf s)) ⟨obj, ctr, none⟩
+  let st := (pipeline path).foldl (exec gen m.input (fieldsOf s)) ⟨startObj mode obj, ctr, none⟩
   (st.sent, (if mode = .inst then st.req else obj), st.ctr)
+
+/-- `api.all_method_settings`: `{ms.selector: … for ms in publishing.method_settings}` — a later entry with the
+same selector would replace an earlier one (validation rejects that); `.get(selector)` -/
+def settingsFor (ss : List Settings) (sel : String) : Option Settings :=
+  (ss.filter (fun s => s.selector == sel)).getLast?
+
+/-- the gate of `import uuid` in client.py.j2 and async_client.py.j2:
+`api.all_method_settings.values()|map(attribute="auto_populated_fields", default=[])|list` is a list with one
+element per settings entry, hence truthy iff there is any entry -/
+def importsUuid (ss : List Settings) : Bool := !ss.isEmpty
+
+/-- a call in a library generated with the settings list `ss`; `none` = `NameError: name 'uuid' is not
+defined` (the macro evaluated `uuid.uuid4()` in a module that does not import `uuid`) -/
+def callChecked (gen : Nat → String) (ss : List Settings) (m : Method) (path : Path) (mode : Mode)
+    (obj : Req) (ctr : Nat) : Option Req :=
+  let c := call gen m (settingsFor ss m.selector) path mode obj ctr
+  if ctr < c.2.2 && !importsUuid ss then none else c.1
+
+/-- the requests of a paginated call: the pager keeps (a copy of) the request that was sent and only
+assigns `page_token` before each follow-up request; the client method body (and the macro) is not re-entered -/
+def pageRequests (first : Req) (tokens : List String) : List Req :=
+  first :: tokens.map (fun t => Req.set first "page_token" t)
 
 /-- a session: a store of caller objects and a list of calls `(mode, object index)`; an instance that is
 passed twice is the same Python object both times -/
